@@ -729,10 +729,9 @@ Definition do_derive_cache (F : facts) (sc acct br idx : N) (s : state) : state 
   else match alookup pair_eqb (sc, acct) (m_accts m) with
   | None => (s, RNotCached)
   | Some ai =>
-    let private := negb (k_locked k) && negb (k_watch k) in
-    if private then
-      if ai_priv ai then (with_mem s (mem_cache m (m_cache m ++ [(sc, acct, br, idx)])), ROk)
-      else (s, RPanic)                   (* acctInfo.acctKeyPriv == nil dereferenced *)
+    (* private := !IsLocked() && !watchOnly && acctInfo.acctKeyPriv != nil *)
+    let private := negb (k_locked k) && negb (k_watch k) && ai_priv ai in
+    if private then (with_mem s (mem_cache m (m_cache m ++ [(sc, acct, br, idx)])), ROk)
     else (s, ROther)                     (* ECPrivKey on a public key: ErrNotPrivExtKey *)
   end.
 
